@@ -386,7 +386,8 @@ func (i *insertExecutor) parsePkValuesFromStatement(insertStmt *ast.InsertStmt, 
 					for i := range row {
 						r := row[i]
 						rStr, ok := r.(string)
-						if i < pkIndex && ok && !strings.EqualFold(rStr, sqlPlaceholder) {
+						// every value that is not a placeholder (string, number, NULL, DEFAULT) shifts the argument index
+						if i < pkIndex && !(ok && strings.EqualFold(rStr, sqlPlaceholder)) {
 							currentRowNotPlaceholderNumBeforePkIndex++
 						}
 					}
